@@ -1,6 +1,7 @@
 import Driver.Proto
 import AdaptaVerif.Model.Pins
 import AdaptaVerif.Check.Attach
+import AdaptaVerif.Model.CheckpointLegs
 /-!
 Driver mode `c11`: pins / junctions / checkpoints (see harness/c11.cpp for the line format).
 Per step (= one `Router::processTransaction`) the implementation's observables are checked:
@@ -10,7 +11,15 @@ Per step (= one `Router::processTransaction`) the implementation's observables a
   used twice; pin did not follow a translation / left its box / lost its proportional place;
   checkpoint not on the route or out of order; junction end not at the junction.
 * DIVERGE: `ShapeConnectionPin::position()/directions()/isExclusive()` differ from the model
-  without any of the clauses above failing.
+  without any of the clauses above failing; the `m_disabled` flags of the visibility edges of the
+  checkpoint vertices (and of the whole router, after the transaction and at every progress callback
+  inside it) differ from what the model of `ConnRef::generateCheckpointsPath` /
+  `VertInf::setVisibleDirections` / `directionFrom` (Model/CheckpointLegs.lean) computes for the
+  same edges and masks — by `Props/C11Legs.generateCheckpointsPath_restores` /
+  `history_never_restricted`: none disabled.
+* A connector that skips a checkpoint / stops at one while edges of its checkpoint vertices are
+  (or were, at the end of the previous transaction) still disabled is a SPECFAIL of the checkpoint /
+  end clause outside every finding class: the search ran on a graph the protocol had not restored.
 -/
 namespace Driver.C11
 open Driver AdaptaVerif.Num AdaptaVerif.Model.Pins AdaptaVerif.Check.Attach
@@ -34,6 +43,17 @@ structure ConnRec where
   src : EndK
   dst : EndK
   cps : List P2 := []
+  cpd : List (Nat × Nat) := []      -- (arrival, departure) masks; [] = all ConnDirAll
+  deriving Inhabited
+
+/-- one visibility edge of a checkpoint vertex as reported by the harness -/
+structure CpEdge where
+  orth : Bool
+  objId : Nat
+  vn : Nat
+  pos : P2
+  dir : Nat          -- other->directionFrom(checkpoint vertex), from the real code
+  disabled : Bool
   deriving Inhabited
 
 structure PinObs where
@@ -58,6 +78,10 @@ structure Obs where
   routes : List (Nat × List P2) := []
   disps : List (Nat × List P2) := []
   ends : List (Nat × EndK × EndK) := []      -- ConnRef::endpointConnEnds() as reported by the library
+  cpv : List (Nat × Nat × Option (List CpEdge)) := []   -- (connector, checkpoint index, edges of its vertex)
+  probes : List (Nat × Nat × Nat × List Bool) := []     -- (connector, checkpoint index, mask, flags after setVisibleDirections)
+  visall : Option (Nat × Nat) := none                   -- (edges, disabled) of the whole router
+  viscb : List (Nat × Nat) := []                        -- (phase, disabled) at the progress callbacks
   deriving Inhabited
 
 structure St where
@@ -75,6 +99,8 @@ structure St where
   jmoves : List (Nat × P2) := []  -- junction moves requested since the last step (id, delta)
   hyperOn : Bool := true          -- cfg: routing option improveHyperedgeRoutesMovingJunctions
   strict : List String := []      -- driver args: finding classes to report as SPECFAIL (else counted)
+  taint : List (Nat × Nat) := []      -- (connector, disabled edges at its checkpoint vertices) after this transaction
+  taintPrev : List (Nat × Nat) := []  -- the same after the previous transaction
   deriving Inhabited
 
 def rat! (s : String) : Rat := (num? s).getD 0
@@ -161,6 +187,88 @@ def checkPins (s : St) : St := Id.run do
           s := { s with divs := s!"step {s.stepNo}: pin {po.id} default isExclusive() = {po.excl}, model {defaultExclusive sp}" :: s.divs }
   return s
 
+/-! ### the visibility-direction protocol (Model/CheckpointLegs.lean) against the real graph -/
+
+open AdaptaVerif.Model.CheckpointLegs in
+/-- vertex identity for the model: (objID, vn, x, y) — orthogonal-graph vertices share one dummy id -/
+abbrev VKey := Nat × Nat × Rat × Rat
+
+def restrictedConn (c : ConnRec) : Bool := c.cpd.any (fun (a, d) => a != 15 || d != 15)
+
+def taintOf (t : List (Nat × Nat)) (c : Nat) : Nat := (lookup t c).getD 0
+
+/-- Per transaction and connector with checkpoints: the model graph is built from the edges the
+    harness read at the checkpoint vertices (directions recomputed with the model of `directionFrom`
+    and compared with the real one), all flags cleared — the state the history theorem
+    `history_never_restricted` gives for the entry of every search —, the model of
+    `generateCheckpointsPath` is run on it with the connector's masks (for two different search
+    behaviours: every leg found / every leg failed), and the resulting flags are compared edge by
+    edge with the flags the real router has after the transaction. The probes tie
+    `setVisibleDirections` itself; `visall` / `viscb` tie the whole-router count. -/
+def checkVisibility (s : St) : St := Id.run do
+  let mut s := s
+  let mut taint : List (Nat × Nat) := []
+  for c in s.conns do
+    if c.cps.isEmpty then continue
+    let mine := s.cur.cpv.filter (·.1 == c.id)
+    if mine.isEmpty then continue
+    let key (k : Nat) : VKey := (1000 + c.id, 2 + k, ((c.cps[k]?).getD ⟨0, 0⟩).x, ((c.cps[k]?).getD ⟨0, 0⟩).y)
+    let mut g0 : AdaptaVerif.Model.CheckpointLegs.Graph VKey := []
+    let mut obs : List Bool := []
+    for (_, k, oes) in mine do
+      match oes, c.cps[k]? with
+      | some es, some cp =>
+        for e in es do
+          let dAB := AdaptaVerif.Model.CheckpointLegs.directionOf AdaptaVerif.Model.CheckpointLegs.dirEps cp.x cp.y e.pos.x e.pos.y
+          let dBA := AdaptaVerif.Model.CheckpointLegs.directionOf AdaptaVerif.Model.CheckpointLegs.dirEps e.pos.x e.pos.y cp.x cp.y
+          s := bump s "vis.edges"
+          if e.orth then s := bump s "vis.edges.orth"
+          if dAB != e.dir then
+            s := { s with divs := s!"step {s.stepNo}: connector {c.id} checkpoint {k}: directionFrom of {showP e.pos} seen from {showP cp} is {e.dir}, model {dAB}" :: s.divs }
+          g0 := g0 ++ [⟨key k, (e.objId, e.vn, e.pos.x, e.pos.y), dAB, dBA, false⟩]
+          obs := obs ++ [e.disabled]
+      | _, _ => s := { s with divs := s!"step {s.stepNo}: connector {c.id}: checkpoint vertex {k} not found in Router::vertices" :: s.divs }
+    let cps : List (AdaptaVerif.Model.CheckpointLegs.Cp VKey) :=
+      (List.range c.cps.length).map (fun k => let m := (c.cpd[k]?).getD (15, 15); ⟨key k, m.1, m.2⟩)
+    let srcK : VKey := (1000 + c.id, 1, 0, 0)
+    let dstK : VKey := (1000 + c.id, 0, 0, 0)
+    let r1 := AdaptaVerif.Model.CheckpointLegs.generateCheckpointsPath (fun _ _ _ => true) srcK dstK cps g0
+    let r2 := AdaptaVerif.Model.CheckpointLegs.generateCheckpointsPath (fun _ _ _ => false) srcK dstK cps g0
+    s := bump s "vis.conns"
+    s := bump s "vis.legs" r1.legs.length
+    s := bump s "vis.legs.restricted" (r1.legs.filter (fun l => !AdaptaVerif.Model.CheckpointLegs.allEnabled l.seen)).length
+    let m1 := r1.g.map (·.disabled)
+    let m2 := r2.g.map (·.disabled)
+    let nDis := (obs.filter id).length
+    if nDis > 0 then taint := (c.id, nDis) :: taint
+    if m1 != obs || m2 != obs then
+      let which := (mine.filterMap (fun (_, k, oes) => match oes with
+        | some es => if es.any (·.disabled) then some s!"checkpoint {k} (masks {(c.cpd[k]?).getD (15, 15)}): {(es.filter (·.disabled)).length} of {es.length}" else none
+        | none => none))
+      s := { s with divs := s!"step {s.stepNo}: connector {c.id}: visibility edges left disabled after the transaction at {which}; the model of generateCheckpointsPath restores every vertex it restricts (generateCheckpointsPath_restores): none" :: s.divs }
+    -- probes of setVisibleDirections
+    for (_, k, mask, flags) in s.cur.probes.filter (·.1 == c.id) do
+      s := bump s "vis.probes"
+      let gp := AdaptaVerif.Model.CheckpointLegs.setVisibleDirections (key k) mask g0
+      let mflags := (gp.filter (fun e => e.a == key k)).map (·.disabled)
+      -- edges of this vertex in the order of its cpv line; a second checkpoint vertex of the connector
+      -- at the other end has its own record of a shared edge
+      if mflags != flags then
+        s := { s with divs := s!"step {s.stepNo}: connector {c.id} checkpoint {k}: setVisibleDirections({mask}) gives disabled flags {flags}, model {mflags}" :: s.divs }
+      else if flags.any id then s := bump s "vis.probes.restricting"
+  match s.cur.visall with
+  | some (n, d) =>
+    s := bump s "vis.router.edges" n
+    if d > 0 then
+      s := { s with divs := s!"step {s.stepNo}: {d} of {n} visibility edges of the router are disabled after the transaction (model: none, history_never_restricted)" :: s.divs }
+  | none => pure ()
+  s := bump s "vis.callbacks" s.cur.viscb.length
+  match s.cur.viscb.find? (fun (_, d) => d > 0) with
+  | some (ph, d) =>
+    s := { s with divs := s!"step {s.stepNo}: {d} visibility edges disabled at a progress callback of phase {ph}, i.e. between two path searches (model: none, history_never_restricted)" :: s.divs }
+  | none => pure ()
+  return { s with taintPrev := s.taint, taint := taint }
+
 structure EndObs where
   hyper : Bool         -- the connector has a junction end (member of a hyperedge)
   conn : Nat
@@ -241,6 +349,14 @@ def stopsAtCheckpoint (c : ConnRec) (r : List P2) : Bool :=
   | _, some q => c.cps.any (· == q)
   | _, none => false
 
+/-- the same for a target that is a free point: the route ends at a checkpoint that is not the target.
+    Only used for connectors with direction-restricted checkpoints (class cp-dirs / cp-restricted);
+    otherwise this is the plain free-end clause. -/
+def stopsAtCheckpointFree (c : ConnRec) (r : List P2) : Bool :=
+  match c.dst, r.getLast? with
+  | .free p, some q => restrictedConn c && q != p && c.cps.any (· == q)
+  | _, _ => false
+
 /-- the same fallback for a polyline connector: a 2-point route one of whose pin-attached ends sits
     at the centre of its shape's bounding box (the dummy end vertex), where no pin of the class is -/
 def isPolyNoPathFallback (s : St) (c : ConnRec) (r : List P2) : Bool :=
@@ -257,7 +373,7 @@ def isPolyNoPathFallback (s : St) (c : ConnRec) (r : List P2) : Bool :=
     attached pin class has capacity (class no-path: a routing failure, C03/C05 territory) -/
 def noPathConns (s : St) (og : List ((Nat × Nat) × List EndObs)) : List Nat :=
   (s.conns.filter (fun c => match lookup s.cur.routes c.id with
-    | some r => (isNoPathFallback c.orth r || isPolyNoPathFallback s c r || stopsAtCheckpoint c r) && (overOf og c.id).isEmpty
+    | some r => (isNoPathFallback c.orth r || isPolyNoPathFallback s c r || stopsAtCheckpoint c r || stopsAtCheckpointFree c r) && (overOf og c.id).isEmpty
     | none => false)).map (·.id)
 
 def checkEnds (s : St) : St := Id.run do
@@ -266,7 +382,16 @@ def checkEnds (s : St) : St := Id.run do
   let og := overGroups s groups0
   let np := noPathConns s og
   for c in np do
-    s := gated s "no-path" s!"step {s.stepNo}: connector {c}: route() is the no-path fallback (straight dummy line / stops at a checkpoint) although free pins exist"
+    let cr := (s.conns.find? (·.id == c)).getD default
+    let t := taintOf s.taint c + taintOf s.taintPrev c
+    if t > 0 then
+      -- not the known class: the search ran on a graph on which an earlier search of this connector had
+      -- left edges of its checkpoint vertices disabled
+      s := { s with fails := s!"cp-restricted: step {s.stepNo}: connector {c}: route() is the no-path fallback (straight dummy line / stops at a checkpoint) {((lookup s.cur.routes c).getD []).map showP}; visibility edges of its checkpoint vertices were left disabled by an earlier search ({taintOf s.taintPrev c} after the previous transaction, {taintOf s.taint c} after this one)" :: s.fails }
+    else if restrictedConn cr then
+      s := gated s "cp-dirs" s!"step {s.stepNo}: connector {c} with direction-restricted checkpoints {cr.cpd}: route() stops at a checkpoint / is the no-path fallback {((lookup s.cur.routes c).getD []).map showP}"
+    else
+      s := gated s "no-path" s!"step {s.stepNo}: connector {c}: route() is the no-path fallback (straight dummy line / stops at a checkpoint) although free pins exist"
   let groups := groups0.map (fun g => (g.1, g.2.filter (fun e => !np.contains e.conn)))
   for ((sh, cls), allEnds) in groups do
     let pins := groupPins s sh cls
@@ -282,7 +407,12 @@ def checkEnds (s : St) : St := Id.run do
             | none => false)).length
           if onPin < cap then
             let msg := s!"step {s.stepNo}: (shape {sh}, class {cls}) has {cap} exclusive pins and {allEnds.length} attached ends but only {onPin} ends sit on pins in {which}"
+            -- a member with direction-restricted checkpoints may have failed to route for that reason
+            -- (class cp-dirs) and then holds no pin; with leftover disabled edges it is a plain failure
+            let restr := allEnds.filter (fun e => restrictedConn ((s.conns.find? (·.id == e.conn)).getD default))
+            let tainted := restr.any (fun e => taintOf s.taint e.conn + taintOf s.taintPrev e.conn > 0)
             if which == "displayRoute()" && allEnds.any (·.hyper) then s := gated s "hyper-disp" msg
+            else if !restr.isEmpty && !tainted then s := gated s "cp-dirs" msg
             else s := { s with fails := msg :: s.fails }
     else
       let ends := allEnds.filter (fun e => (overOf og e.conn).isEmpty)
@@ -379,7 +509,17 @@ def checkOthers (s : St) : St := Id.run do
               let sub := if !checkpointsInOrder (simplify r) c.cps then "cut by simplify()" else "simplify(route()) still visits them: lost in nudging / post-processing"
               s := gated s "cp-disp" s!"step {s.stepNo}: connector {c.id}: checkpoints {c.cps.map showP} visited by route() but not by displayRoute() {rt.map showP} ({sub})"
             else
-              s := { s with fails := s!"step {s.stepNo}: connector {c.id}: checkpoints {c.cps.map showP} not visited in order by {which} {rt.map showP}" :: s.fails }
+              let t := taintOf s.taint c.id + taintOf s.taintPrev c.id
+              let msg := s!"step {s.stepNo}: connector {c.id}: checkpoints {c.cps.map showP} not visited in order by {which} {rt.map showP}"
+              if t > 0 then
+                s := { s with fails := s!"cp-restricted: {msg}; visibility edges of its checkpoint vertices were left disabled by an earlier search ({taintOf s.taintPrev c.id} after the previous transaction, {taintOf s.taint c.id} after this one)" :: s.fails }
+              else if restrictedConn c then
+                -- class cp-dirs: the leg-by-leg search honours a checkpoint's arrival / departure masks only
+                -- greedily (a leg does not know the departure mask of the checkpoint it goes to), so a
+                -- checkpoint with restricted masks can be reached the wrong way round and the next leg fails
+                s := gated s "cp-dirs" s!"{msg} (masks {c.cpd})"
+              else
+                s := { s with fails := msg :: s.fails }
     | _, _ => pure ()
   return s
 
@@ -438,6 +578,7 @@ def endStep (s : St) : St :=
   let s := checkEndsNamed s
   let s := checkJunctionMoves s
   let s := checkPins s
+  let s := checkVisibility s
   let s := checkEnds s
   let s := checkOthers s
   { s with prev := s.cur, cur := {}, stats := bumpStats s.stats "steps" 1 }
@@ -451,11 +592,28 @@ def feed (s : St) (l : Array String) : St :=
   | "conn" =>
     let (e1, i) := parseEnd l 3
     let (e2, _) := parseEnd l i
-    { s with conns := s.conns ++ [⟨nat! l[1]!, l[2]! == "1", e1, e2, []⟩] }
+    { s with conns := s.conns ++ [⟨nat! l[1]!, l[2]! == "1", e1, e2, [], []⟩] }
   | "cps" =>
     let id := nat! l[1]!
     let ps := ptsFrom l 3 (nat! l[2]!)
     { s with conns := s.conns.map (fun c => if c.id == id then { c with cps := ps } else c) }
+  | "cpdirs" =>
+    let id := nat! l[1]!
+    let ds := (List.range (nat! l[2]!)).map (fun i => (nat! l[3 + 2 * i]!, nat! l[4 + 2 * i]!))
+    let s := ds.foldl (fun s (a, d) => bump s ("cpdirs." ++ (if a == 15 then "A" else "r") ++ (if d == 15 then "A" else "r"))) s
+    { s with conns := s.conns.map (fun c => if c.id == id then { c with cpd := ds } else c) }
+  | "pens" => if rat! l[2]! > 0 || rat! l[3]! > 0 then bump s "cfg.crossing-stage" else s
+  | "cpv" =>
+    let n := int! l[3]!
+    let es : Option (List CpEdge) := if n < 0 then none else
+      some ((List.range n.toNat).map (fun i => let b := 4 + 7 * i
+        ⟨l[b]! == "1", nat! l[b+1]!, nat! l[b+2]!, pt! l (b+3), nat! l[b+5]!, l[b+6]! == "1"⟩))
+    { s with cur := { s.cur with cpv := s.cur.cpv ++ [(nat! l[1]!, nat! l[2]!, es)] } }
+  | "probe" =>
+    let n := nat! l[4]!
+    { s with cur := { s.cur with probes := s.cur.probes ++ [(nat! l[1]!, nat! l[2]!, nat! l[3]!, (List.range n).map (fun i => l[5 + i]! == "1"))] } }
+  | "visall" => { s with cur := { s.cur with visall := some (nat! l[1]!, nat! l[2]!) } }
+  | "viscb" => { s with cur := { s.cur with viscb := (List.range (nat! l[1]!)).map (fun i => (nat! l[2 + 2 * i]!, nat! l[3 + 2 * i]!)) } }
   | "op" =>
     let s := bump s ("op." ++ l[1]!)
     match l[1]! with
@@ -496,7 +654,7 @@ def feed (s : St) (l : Array String) : St :=
       "lib-assert" s!"step {s.stepNo + 1}: library assertion failed: {l[1]!}"
   | _ => s
 
-def numericKeys : List String := ["box", "pinpos", "jpos", "route", "disp", "pin", "shape", "junction", "cps"]
+def numericKeys : List String := ["box", "pinpos", "jpos", "route", "disp", "pin", "shape", "junction", "cps", "cpv"]
 
 def checkCase (strict : List String) (c : Case) : CaseResult := Id.run do
   -- non-finite coordinates from the implementation are a failure of every clause
@@ -505,7 +663,10 @@ def checkCase (strict : List String) (c : Case) : CaseResult := Id.run do
       return { verdict := .specfail s!"non-finite coordinate in: {" ".intercalate l.toList}" }
   let s := c.lines.foldl feed ({ strict := strict } : St)
   let stats := s.stats ++ [("pins", s.pins.length), ("connectors", s.conns.length)]
-  match s.fails.reverse, s.divs.reverse with
+  -- failures outside every finding class rank above the gated "[class] …" ones, so that a known
+  -- defect met earlier in the case cannot mask them
+  let fs := s.fails.reverse
+  match (fs.filter (fun m => !m.startsWith "[")) ++ (fs.filter (fun m => m.startsWith "[")), s.divs.reverse with
   | f :: _, _ => return { verdict := .specfail f, nontrivial := s.nontrivial, stats := stats }
   | [], d :: _ => return { verdict := .diverge d, nontrivial := s.nontrivial, stats := stats }
   | [], [] => return { verdict := .ok, nontrivial := s.nontrivial, stats := stats }
